@@ -58,6 +58,8 @@ class Interp:
         if isinstance(node, (ast.List, ast.Tuple, ast.Set)):
             vals = [self.ev(e) for e in node.elts]
             return vals if isinstance(node, ast.List) else tuple(vals) if isinstance(node, ast.Tuple) else set(vals)
+        if isinstance(node, ast.Dict) and all(k is not None for k in node.keys):
+            return {self.ev(k): self.ev(v) for k, v in zip(node.keys, node.values)}
         if isinstance(node, ast.Name):
             raise AnalysisError(f"guard language: free name {node.id!r} has no declared domain ({text})")
         if isinstance(node, ast.Attribute):
@@ -322,6 +324,19 @@ class Interp:
                 base = None
             if isinstance(base, dict):
                 base[target.attr] = val
+                if self.on_store is not None:
+                    self.on_store(self, text, val, node)
+                return
+        if isinstance(target, ast.Subscript) and not isinstance(target.slice, ast.Slice):
+            try:
+                base, idx = self.ev(target.value), self.ev(target.slice)
+            except AnalysisError:
+                base = idx = None
+            if isinstance(base, (dict, list)) and not isinstance(idx, (Unknown, dict, list)) and idx is not None:
+                try:
+                    base[idx] = val
+                except (IndexError, TypeError) as exc:
+                    raise AnalysisError(f"guard language: cannot store {text!r}: {exc}") from exc
                 if self.on_store is not None:
                     self.on_store(self, text, val, node)
                 return
